@@ -30,6 +30,9 @@ pub fn init_logging(verbose: bool) {
 
     let _result = fmt()
         .with_writer(std::io::stderr)
+        // a failed log write must not be reported with eprintln!, which panics
+        // when stderr itself is the thing that is broken (closed, full device)
+        .log_internal_errors(false)
         .with_env_filter(filter)
         .with_target(false)
         .compact()
